@@ -58,11 +58,9 @@ def run_p(report: Report, prop: str, tier: str, targets: Optional[List[str]] = N
     reg = load_all()
     jobs = []
     for t in targets:
-        n = int(getattr(reg.contract_for(t), "shards", 1))
-        for k in range(n):
-            jobs.append((t, tier, budget, (k, n)))
+        jobs.append((t, tier, budget, (0, 1)))
     # heavy (sharded) functions first
-    jobs.sort(key=lambda j: -j[3][1])
+    jobs.sort(key=lambda j: -int(getattr(reg.contract_for(j[0]), "shards", 1)))
     with ProcessPoolExecutor(max_workers=min(workers, len(jobs))) as pool:
         futs = {pool.submit(_verify_one, j): j for j in jobs}
         for fut in as_completed(futs):
